@@ -5,6 +5,7 @@ package cose
 import (
 	"os"
 	"testing"
+	"time"
 )
 
 // TestVerifReplay runs one harness natively on the values of a solver model.
@@ -13,27 +14,42 @@ func TestVerifReplay(t *testing.T) {
 	if path == "" {
 		t.Skip("VERIF_REPLAY not set")
 	}
-	if err := vLoadReplay(path); err != nil {
-		t.Fatal(err)
-	}
-	h, ok := vHarnesses[vDoc.Harness]
-	if !ok {
-		t.Fatalf("unknown harness %q", vDoc.Harness)
-	}
-	func() {
-		defer func() {
-			if r := recover(); r != nil {
-				if _, ok := r.(vAssumeFailed); ok {
-					t.Logf("VERIF-REPLAY: assumption not satisfied by replay values (path not reproduced)")
-					return
+	// harnesses that quantify over map iteration order are repeated: natively the order is
+	// drawn by the runtime, so one run samples one schedule
+	start := time.Now()
+	for round := 0; round < 400 && time.Since(start) < 15*time.Second; round++ {
+		if err := vLoadReplay(path); err != nil {
+			t.Fatal(err)
+		}
+		vUsesMapOrder = false
+		vReachedLbl = nil
+		h, ok := vHarnesses[vDoc.Harness]
+		if !ok {
+			t.Fatalf("unknown harness %q", vDoc.Harness)
+		}
+		assumeFailed := false
+		func() {
+			defer func() {
+				if r := recover(); r != nil {
+					if _, ok := r.(vAssumeFailed); ok {
+						assumeFailed = true
+						return
+					}
+					panic(r)
 				}
-				panic(r)
-			}
+			}()
+			h()
 		}()
-		h()
-	}()
-	if len(vFailures) > 0 {
-		t.Fatalf("VERIF-REPLAY-VIOLATION %d assertion(s) failed: %v", len(vFailures), vFailures)
+		if len(vFailures) > 0 {
+			t.Fatalf("VERIF-REPLAY-VIOLATION %d assertion(s) failed: %v", len(vFailures), vFailures)
+		}
+		if assumeFailed && !vUsesMapOrder {
+			t.Logf("VERIF-REPLAY: assumption not satisfied by replay values (path not reproduced)")
+			return
+		}
+		if !vUsesMapOrder {
+			break
+		}
 	}
 	t.Logf("VERIF-REPLAY: harness %s passed natively (reached %v)", vDoc.Harness, vReachedLbl)
 }
